@@ -7,6 +7,7 @@ import os
 import re
 import shlex
 import shutil
+import signal
 import subprocess
 from abc import ABCMeta, abstractmethod
 from pathlib import Path
@@ -660,6 +661,17 @@ class EngineBase(metaclass=ABCMeta):
         else:
             raise ValueError("Did not find random generator!!")
         return vel, sigma_v
+
+
+def terminate_process(exe: subprocess.Popen) -> None:
+    """Terminate an external program (and its process group) if it still runs.
+
+    Intended as a clean-up callback, so that the program started for a
+    propagation does not outlive an exception raised while we follow it.
+    """
+    if exe.poll() is None:
+        os.killpg(os.getpgid(exe.pid), signal.SIGTERM)
+        exe.wait(timeout=360)
 
 
 def counter():
